@@ -361,24 +361,54 @@ theorem mergeCalls_ne (runs : List (Nat × ChildRun)) (n : Nat) :
   obtain ⟨call, _, rfl⟩ := hr
   exact prefixSigs_ne i _ s hs
 
-/-- **signals** — (by construction of the model, as `set_coherent`) a completed `set()` of any element kind logs exactly one entry for that element,
-    as the last entry, with `adapted` equal to the returned flag; the entries before it belong to
-    elements below it. -/
+/-- `Scalar.set` traced assignment by assignment ends in the state, flag and single signal of
+    `setScalar`, whatever the element held before -/
+theorem scalarSetTrace_eq (E : Env) (k : Kind) (old : SState) (x : Native) :
+    scalarSetTrace E k old x =
+      (match setScalar E k x with
+       | .ok r => .ok (r.st, r.flag, [(r.flag, r.st)])
+       | .error e => .error e) := by
+  unfold scalarSetTrace setScalar
+  cases adapt E k x with
+  | error e => rfl
+  | ok ov =>
+    cases ov with
+    | some v => simp only; cases uOfValue E k v <;> rfl
+    | none => simp only; cases uOfFailed E.T x <;> rfl
+
+theorem scalarSetTrace_sigs (E : Env) (k : Kind) (old : SState) (x : Native) (st : SState) (flag : Bool)
+    (sigs : List (Bool × SState)) (h : scalarSetTrace E k old x = .ok (st, flag, sigs)) :
+    sigs = [(flag, st)] := by
+  rw [scalarSetTrace_eq] at h
+  cases hs : setScalar E k x with
+  | error e => simp [hs] at h
+  | ok r =>
+    simp only [hs, Except.ok.injEq, Prod.mk.injEq] at h
+    obtain ⟨rfl, rfl, rfl⟩ := h
+    rfl
+
+/-- **signals / signal_after_final** — a completed `set()` of any element kind logs exactly one
+    entry for that element, as the last entry, with `adapted` equal to the returned flag AND with
+    the element's final state as the state a listener sees at that moment; the entries before it
+    belong to elements below it.  (The model performs the assignments and the `send` of each
+    branch in the order of the code; moving a `send` before an assignment in the model makes this
+    proof fail.) -/
 theorem signals_spec (E : Env) (S : Schema) (old : Elem) (x : Input) (out : SetOut)
     (h : setElem E S old x = .ok out) :
-    ∃ pre, out.sigs = pre ++ [([], out.flag)] ∧ ∀ s ∈ pre, s.1 ≠ [] := by
+    ∃ pre, out.sigs = pre ++ [([], out.flag, out.elem)] ∧ ∀ s ∈ pre, s.1 ≠ [] := by
   cases S with
   | scalar k =>
     cases x with
     | leaf n =>
       simp only [setElem] at h
-      cases hs : setScalar E k n with
-      | error e => simp [hs] at h
-      | ok r =>
-        simp only [hs, Except.ok.injEq] at h
+      split at h
+      · simp at h
+      · rename_i st' flag sigs hs
+        simp only [Except.ok.injEq] at h
         subst h
         refine ⟨[], ?_, by simp⟩
-        simp [set_signals E k n r hs]
+        rw [scalarSetTrace_sigs E k _ n st' flag sigs hs]
+        rfl
     | list xs => simp [setElem] at h
     | dict ps => simp [setElem] at h
   | seq m =>
@@ -437,19 +467,27 @@ theorem signals_spec (E : Env) (S : Schema) (old : Elem) (x : Input) (out : SetO
         obtain ⟨⟨i, o⟩, _, hi⟩ := List.mem_flatMap.mp hs
         exact prefixSigs_ne i _ s hi
 
+/-- **signal_after_final** — in every completed `set()`, of every element kind and for every
+    input, the element's own signal is the last one and the snapshot it carries (what a listener
+    can read from the element inside the handler) is the element's final state -/
+theorem signal_after_final (E : Env) (S : Schema) (old : Elem) (x : Input) (out : SetOut)
+    (h : setElem E S old x = .ok out) : out.sigs.getLast? = some ([], out.flag, out.elem) := by
+  obtain ⟨pre, hs, _⟩ := signals_spec E S old x out h
+  rw [hs]; simp
+
 /-! ### the returned flag of a container is the conjunction of its members' flags -/
 
 /-- the `adapted` flags signalled by the direct children, in order -/
-def directFlags (sigs : List Sig) : List Bool := (sigs.filter fun s => s.1.length == 1).map (·.2)
+def directFlags (sigs : List Sig) : List Bool := (sigs.filter fun s => s.1.length == 1).map (·.2.1)
 
 theorem directFlags_append (a b : List Sig) : directFlags (a ++ b) = directFlags a ++ directFlags b := by
   simp [directFlags]
 
-theorem directFlags_root (b : Bool) : directFlags [([], b)] = [] := by simp [directFlags]
+theorem directFlags_root (b : Bool) (e : Elem) : directFlags [([], b, e)] = [] := by simp [directFlags]
 
 /-- a completed child set contributes exactly its own flag at depth 1 -/
-theorem directFlags_prefix (i : Nat) (sigs : List Sig) (flag : Bool)
-    (h : ∃ pre, sigs = pre ++ [([], flag)] ∧ ∀ s ∈ pre, s.1 ≠ []) :
+theorem directFlags_prefix (i : Nat) (sigs : List Sig) (flag : Bool) (snap : Elem)
+    (h : ∃ pre, sigs = pre ++ [([], flag, snap)] ∧ ∀ s ∈ pre, s.1 ≠ []) :
     directFlags (prefixSigs i sigs) = [flag] := by
   obtain ⟨pre, rfl, hpre⟩ := h
   unfold prefixSigs directFlags
@@ -508,7 +546,7 @@ theorem mem_indexed {α} (l : List α) (p : Nat × α) (h : p ∈ indexed l) : p
     non-iterable) returns the conjunction of the flags its members signalled -/
 theorem joined_flag (E : Env) (sep : Str) (sp : Splitter) (prune : Bool) (k : Kind) (old : Elem) (x : Input)
     (out : SetOut) (h : setElem E (.joined sep sp prune k) old x = .ok out)
-    (hne : out.sigs ≠ [([], false)] ∨ out.flag = true) :
+    (hne : out.sigs ≠ [([], false, Elem.joined [])] ∨ out.flag = true) :
     out.flag = (directFlags out.sigs).all id := by
   simp only [setElem] at h
   split at h
@@ -521,29 +559,32 @@ theorem joined_flag (E : Env) (sep : Str) (sp : Splitter) (prune : Bool) (k : Ki
     · simp only [Except.ok.injEq] at h
       subst h
       simp only [directFlags_append, directFlags_root, List.append_nil]
-      rw [directFlags_flatMap _ _ (fun p => p.2.flag)]
+      rw [directFlags_flatMap _ _ (fun p => p.2.2.1)]
       · simp only [List.all_map, Function.comp_def, id]
         unfold indexed
         generalize hl : List.filterMap _ _ = oks
         clear hl
-        have : ∀ (l : List SetResult) (n : Nat), (List.zip (List.range' n l.length) l).all (fun p => p.2.flag) = l.all (·.flag) := by
+        have : ∀ (l : List (SState × Bool × List (Bool × SState))) (n : Nat),
+            (List.zip (List.range' n l.length) l).all (fun p => p.2.2.1) = l.all (·.2.1) := by
           intro l
           induction l with
           | nil => intro n; rfl
           | cons a t ih => intro n; simp [List.range'_succ, ih]
         simpa [List.range_eq_range'] using (this oks 0).symm
       · rintro ⟨i, r⟩ hr
-        apply directFlags_prefix
         have hmem := mem_indexed _ _ hr
         obtain ⟨o, ho, hor⟩ := List.mem_filterMap.mp hmem
         obtain ⟨v, _, rfl⟩ := List.mem_map.mp ho
-        cases hres : setScalar E k v with
+        cases hres : scalarSetTrace E k blankState v with
         | error e => simp [hres] at hor
         | ok r' =>
           simp only [hres, Option.some.injEq] at hor
           subst hor
-          refine ⟨[], ?_, by simp⟩
-          simp [set_signals E k v r' hres]
+          obtain ⟨st, flag, sigs⟩ := r'
+          have hsig := scalarSetTrace_sigs E k _ v st flag sigs hres
+          subst hsig
+          apply directFlags_prefix i _ flag (Elem.scalar st)
+          exact ⟨[], rfl, by simp⟩
 
 theorem runSets_calls (step : Elem → Input → Except CRaise SetOut) (e : Elem) (inputs : List (Nat × Input)) :
     ∀ c ∈ (runSets step e inputs).calls, ∃ e' x out, step e' x = .ok out ∧ c.2 = (out.flag, out.sigs) := by
@@ -602,7 +643,7 @@ theorem dict_flag (E : Env) (pol : Policy) (names : List Str) (fields : List Sch
         have hmem : call ∈ r.calls := List.mem_of_find?_eq_some hfind
         obtain ⟨f, e', y, o, h1, h2⟩ := setFields_runs E names fields pairs 0 (i, r) hr call hmem
         rw [h2]
-        exact directFlags_prefix i o.sigs o.flag (signals_spec E f e' y o h1)
+        exact directFlags_prefix i o.sigs o.flag o.elem (signals_spec E f e' y o h1)
 
 /-- a Dict with a String field and a list-of-Strings field, set from a pair list that names `a`
     twice: children's entries first (in loop order), the Dict's own entry last -/
@@ -611,7 +652,7 @@ example :
         (blank (.dict .subset ["a".toList, "l".toList] [.scalar (.string false), .seq (.scalar (.string false))]))
         (.list [.list [.leaf (.str "a".toList), .leaf (.str "x".toList)],
                 .list [.leaf (.str "l".toList), .list [.leaf (.str "p".toList), .leaf (.str "q".toList)]],
-                .list [.leaf (.str "a".toList), .leaf .none]])).toOption.map (fun o => (o.flag, o.sigs)) =
+                .list [.leaf (.str "a".toList), .leaf .none]])).toOption.map (fun o => (o.flag, o.sigs.map fun s => (s.1, s.2.1))) =
       some (true, [([0], true), ([1, 0], true), ([1, 1], true), ([1], true), ([0], true), ([], true)]) := by
   decide
 
